@@ -391,6 +391,8 @@ pub struct GenCfg {
     pub p_selfclose: u32,
     pub p_prolog: u32,
     pub ws_styles: bool,
+    /// percentage of text nodes / attribute values / (per skeleton) names that are very long
+    pub p_long: u32,
 }
 
 impl GenCfg {
@@ -466,6 +468,7 @@ impl GenCfg {
             p_selfclose: *rng.pick(&[0, 50, 50, 100]),
             p_prolog: *rng.pick(&[0, 30, 100]),
             ws_styles: rng.pct(30),
+            p_long: *rng.pick(&[0, 0, 0, 0, 3, 8]),
         }
     }
 }
@@ -491,7 +494,15 @@ pub fn gen_skel(rng: &mut Rng, cfg: &GenCfg, name: &str, depth: usize, budget: &
         let n = rng.below(cfg.max_kids + 1);
         let mut names: Vec<String> = Vec::new();
         for _ in 0..n {
-            let k = if rng.pct(8) { name.to_string() } else { rng.pick(&cfg.elem_names).clone() };
+            let k = if rng.pct(8) {
+                name.to_string()
+            } else if rng.pct(cfg.p_long) {
+                // a very long element name (kept distinct by its length)
+                let n = long_len(rng).min(1100);
+                "n".repeat(n)
+            } else {
+                rng.pick(&cfg.elem_names).clone()
+            };
             if names.contains(&k) || (cfg.no_prefix_twins && twin(&names, &k)) {
                 continue;
             }
@@ -520,6 +531,18 @@ fn misc_node(rng: &mut Rng, cfg: &GenCfg, kids: &mut Vec<Node>) {
     }
 }
 
+/// sizes around the powers of two where buffers and thresholds live
+fn long_len(rng: &mut Rng) -> usize {
+    let base = if rng.pct(4) { 8192 } else { *rng.pick(&[16usize, 64, 128, 256, 256, 1024]) };
+    base + rng.below(5) - 2
+}
+
+fn long_text(rng: &mut Rng) -> String {
+    let n = long_len(rng);
+    let unit = *rng.pick(&["x", "ab ", "é", "&amp;", "\n "]);
+    unit.repeat(n / unit.len() + 1)
+}
+
 fn value_for(rng: &mut Rng) -> (String, u8) {
     let q = if rng.pct(70) { b'"' } else { b'\'' };
     let mut v = rng.pick(VALUES).to_string();
@@ -539,7 +562,10 @@ pub fn inst(rng: &mut Rng, cfg: &GenCfg, sk: &Skel, budget: &mut usize) -> Elem 
         rng.shuffle(&mut attrs);
     }
     for a in attrs {
-        let (value, quote) = value_for(rng);
+        let (mut value, quote) = value_for(rng);
+        if rng.pct(cfg.p_long) {
+            value = long_text(rng);
+        }
         e.attrs.push(Attr { name: a.clone(), value, quote });
     }
     let hollow = rng.pct(cfg.p_hollow);
@@ -573,7 +599,10 @@ pub fn inst(rng: &mut Rng, cfg: &GenCfg, sk: &Skel, budget: &mut usize) -> Elem 
     }
     misc_node(rng, cfg, &mut kids);
     if text_here {
-        if rng.pct(cfg.p_cdata.max(10)) {
+        if rng.pct(cfg.p_long) {
+            let t = long_text(rng);
+            kids.push(if rng.pct(30) { Node::CData(t.replace("&amp;", "&")) } else { Node::Text(t) });
+        } else if rng.pct(cfg.p_cdata.max(10)) {
             kids.push(Node::CData(rng.pick(CDATAS).to_string()));
         } else {
             kids.push(Node::Text(rng.pick(TEXTS).to_string()));
